@@ -506,7 +506,7 @@ pub fn field_text_strategy() -> impl Strategy<Value = String> {
 }
 
 pub fn parts() -> Vec<Box<dyn DynPart>> {
-    vec![Box::new(Route1), Box::new(Route2), Box::new(TextFields), Box::new(SetApi)]
+    vec![Box::new(Route1), Box::new(Route2), Box::new(TextFields), Box::new(SetApi), Box::new(crate::props::c03::OneCodec("c01"))]
 }
 
 pub fn run(run: &mut Run) {
@@ -537,4 +537,8 @@ pub fn run(run: &mut Run) {
     // (4) histories of calls on the public set APIs (insert / remove / clear / from_bits), round trip after every call
     let n = run.budget(40_000, 2_000_000);
     run.prop(&SetApi, set_api_strategy(), n);
+    // (5) a connection encodes all its packets with one codec: whatever it was asked to encode before (refused packets among
+    // them), a packet's frame must be the one a fresh codec produces, and read back alike
+    let n = run.budget(30_000, 1_500_000);
+    run.prop(&crate::props::c03::OneCodec("c01"), crate::props::c03::seq_strategy(), n);
 }
